@@ -482,6 +482,29 @@ def run_shard(ctx, spec):
             ctx.count('eval.every-column-of-the-row')
         mon.mono.maps.clear()
         mon.spell.clear()
+    if spec['i'] == 1:
+        # pairs of questions whose arguments run together into the same text ((5, '15K') and (51, '5K') both read "515K"): asked
+        # back to back in both orders, in the plain spelling with whole ages - a memo keyed on a concatenation answers one with
+        # the other's factor
+        for y in (2023, 2015):
+            for g in 'mf':
+                codes = [r[0] for r in mon.tables[y][g]]
+                for e2 in codes:
+                    for d in ('1', '2', '3', '10', '15'):
+                        e1 = d + e2
+                        if e1 not in codes:
+                            continue
+                        for a1 in range(5, 13):
+                            a2 = int(str(a1) + d)
+                            for first, second in (((a1, e1), (a2, e2)), ((a2, e2), (a1, e1))):
+                                mon.mono.maps.clear()
+                                attach.call(a.wma_age_factor, g, first[0], first[1], year=y)
+                                attach.call(a.wma_age_factor, g, second[0], second[1], year=y)
+                                attach.call(a.wma_age_grade, g, second[0], second[1], mon.rows[(y, g, second[1])][2] * 1.1, year=y)
+                                ctx.count('eval.arguments-that-run-together')
+                            # something else in between, so that the second order starts from a memo that has moved on
+                            for filler in range(130):
+                                attach.call(attach.original(a.wma_age_factor), g, 35 + filler % 60, codes[(filler * 7) % len(codes)], year=y)
     if spec['i'] == 0:
         table_shape(mon, ctx)
     ctx.require('judged.factor', 200)
